@@ -19,6 +19,7 @@ type State struct {
 	def  map[Atom]Lin
 	ineq []Lin
 	cong map[Atom]Cong
+	lc   []LinCong // linear congruences: E ≡ 0 (mod M)
 	dead bool
 	// non-numeric facts
 	nonnil    map[string]bool    // key of SSA value / cell -> known non-nil
@@ -29,6 +30,12 @@ type State struct {
 	ver       int64
 	dirty     map[Atom]int64   // memory cell atoms -> version of their last write
 	loopEnter map[string]int64 // loop id -> version when the loop was entered from outside
+}
+
+// LinCong: E ≡ 0 (mod M), E over base atoms.
+type LinCong struct {
+	E Lin
+	M int64
 }
 
 // Corr: states correlated with the nil-ness of an error value returned by a callee.
@@ -55,6 +62,7 @@ func (s *State) Clone() *State {
 	n := &State{eng: s.eng, def: make(map[Atom]Lin, len(s.def)), ineq: append([]Lin(nil), s.ineq...), cong: make(map[Atom]Cong, len(s.cong)),
 		dead: s.dead, nonnil: make(map[string]bool, len(s.nonnil)), isnil: make(map[string]bool, len(s.isnil)),
 		ptr: make(map[string]Address, len(s.ptr)), elemsNN: make(map[string]bool, len(s.elemsNN)), corr: make(map[string]*Corr, len(s.corr)), ver: s.ver}
+	n.lc = append([]LinCong(nil), s.lc...)
 	for k, v := range s.def {
 		n.def[k] = v
 	}
@@ -297,6 +305,11 @@ func (s *State) solveBase(a Atom, val Lin) {
 			s.ineq[i] = tighten(c.Subst(a, val), s)
 		}
 	}
+	for i, l := range s.lc {
+		if l.E.Coef(a) != 0 {
+			s.lc[i].E = l.E.Subst(a, val)
+		}
+	}
 	s.def[a] = val
 	s.checkConst()
 }
@@ -351,6 +364,58 @@ func (s *State) addCong(a Atom, c Cong) {
 
 // CongOfExpr derives a congruence for e (M<=1 if none).
 func (s *State) CongOfExpr(e Lin) Cong {
+	best := s.congBase(e)
+	if len(s.lc) == 0 {
+		return best
+	}
+	se := s.Subst(e)
+	if se.Bad {
+		return best
+	}
+	try := func(x Lin, mod int64, depth int) {}
+	try = func(x Lin, mod int64, depth int) {
+		c := s.congBase(x)
+		if c.ok() {
+			m := c.M
+			if mod > 0 {
+				m = gcd(m, mod)
+			}
+			if m > 1 && (!best.ok() || m > best.M) {
+				best = Cong{m, modpos(c.R, m)}
+			}
+		}
+		if depth == 0 {
+			return
+		}
+		for _, l := range s.lc {
+			for _, t := range l.E.T {
+				if t.K != 1 && t.K != -1 {
+					continue
+				}
+				k := x.Coef(t.A)
+				if k == 0 {
+					continue
+				}
+				// x - k*t.K*E eliminates t.A ; x ≡ that (mod l.M)
+				y := x.AddMul(l.E, -k*t.K)
+				if y.Bad {
+					continue
+				}
+				nm := l.M
+				if mod > 0 {
+					nm = gcd(mod, l.M)
+				}
+				if nm > 1 {
+					try(y, nm, depth-1)
+				}
+			}
+		}
+	}
+	try(se, 0, 2)
+	return best
+}
+
+func (s *State) congBase(e Lin) Cong {
 	e = s.Subst(e)
 	if e.Bad {
 		return Cong{}
@@ -488,6 +553,34 @@ func (s *State) Forget(a Atom) {
 	if used {
 		s.ineq = Eliminate(s.ineq, a, s)
 	}
+	s.dropLC(a)
+}
+
+func (s *State) dropLC(a Atom) {
+	out := s.lc[:0]
+	for _, l := range s.lc {
+		if l.E.Coef(a) == 0 && !l.E.Bad {
+			out = append(out, l)
+		}
+	}
+	s.lc = out
+}
+
+// AddLCong records e ≡ 0 (mod m).
+func (s *State) AddLCong(e Lin, m int64) {
+	e = s.Subst(e)
+	if e.Bad || m <= 1 || len(e.T) == 0 {
+		return
+	}
+	for _, l := range s.lc {
+		if l.M == m && l.E.Equal(e) {
+			return
+		}
+	}
+	if len(s.lc) > 24 {
+		s.lc = s.lc[1:]
+	}
+	s.lc = append(s.lc, LinCong{e, m})
 }
 
 // Rename substitutes atom from by atom to everywhere (to must be unused).
@@ -508,6 +601,9 @@ func (s *State) Rename(from, to Atom) {
 	}
 	for i, c := range s.ineq {
 		s.ineq[i] = ren(c)
+	}
+	for i, l := range s.lc {
+		s.lc[i].E = ren(l.E)
 	}
 	if c, ok := s.cong[from]; ok {
 		delete(s.cong, from)
@@ -541,6 +637,9 @@ func (s *State) String() string {
 	}
 	for a, c := range s.cong {
 		parts = append(parts, fmt.Sprintf("%s ≡ %d mod %d", s.eng.atomName(a), c.R, c.M))
+	}
+	for _, l := range s.lc {
+		parts = append(parts, fmt.Sprintf("%s ≡ 0 mod %d", s.eng.linStr(l.E), l.M))
 	}
 	var nn, en []string
 	for k := range s.nonnil {
